@@ -4,6 +4,7 @@
 (b) document level: skeleton documents x every placement of 1 malformed cell x every malformed text, every pair of placements, (thorough) triples;
     a blank line before the damage.  Oracle: the reference model of the damaged document + the undamaged twin."""
 import itertools
+import re
 
 import kernpy as kp
 
@@ -179,6 +180,20 @@ def check_places(acc, sk, seed, places, blank_before=None):
         acc.violation(Viol(cls, sym, case, exp, got))
     elif got != exp:
         acc.violation(Viol(cls if blank_before is None else 'blank-line-before-the-damage', 'wrong-line-number', case, exp, got))
+    elif len(places) > 1 or acc.n['evaluations'] % 4 == 0:
+        # the same report through the raising mode: it raises exactly when there is an error and its message names every malformed cell and line
+        try:
+            kp.loads(text, raise_on_errors=True)
+            raised = None
+        except Exception as e:  # noqa
+            raised = str(e)
+        acc.count('transitions')
+        if (raised is None) != (not exp):
+            acc.violation(Viol(cls, 'raising-mode-disagrees-with-the-error-list', dict(case, raise_on_errors=True), 'raises' if exp else 'no exception', raised and raised[:200]))
+        elif raised is not None:
+            missing = [(ln, b) for ln, b in exp if b not in raised or not re.search(r'(?<!\d)%d(?!\d)' % ln, raised)]
+            if missing:
+                acc.violation(Viol(cls, 'raising-mode-omits-a-malformed-cell-or-its-line', dict(case, raise_on_errors=True), exp, raised[:300]))
     # every other token exactly as without the damage + malformed cells verbatim in place: reference model of the damaged document
     try:
         toks = [(t.encoding, t.category.name, t.export()) for t in doc.get_all_tokens()]
